@@ -186,7 +186,7 @@ func (r *Interceptor) BindRTCPReader(reader interceptor.RTCPReader) interceptor.
 			}
 			r.lock.Lock()
 			for _, recorder := range r.recorders {
-				recorder.QueueIncomingRTCP(r.now(), bytes[:n], attributes)
+				recorder.QueueIncomingRTCP(r.now(), bytes[:n], attattributes)
 			}
 			r.lock.Unlock()
 
